@@ -286,6 +286,12 @@ async fn run_scen(a: &Args, m: &mut mon::Mon) {
                 }
                 "C10" => {
                     let ru = w.accts[lq].user;
+                    if r.gen_bool(0.25) {
+                        // rewards inside the bracket (claimed by the receiver, by the co-signing owner,
+                        // settled by anybody): the bracket admits withdraw and repay only
+                        let mut ad = admin::Admin { g, emint: None, steps: 0 };
+                        ad.emissions_in_receivership(&mut w, m, &mut r, &lev, ru).await;
+                    }
                     scen::receivership(&mut w, m, &mut r, &lev, ru).await
                 }
                 _ => {
@@ -357,7 +363,7 @@ async fn run_admin(a: &Args, m: &mut mon::Mon) {
                 staked_done = true;
                 admin::staked_flow(&mut w, m, &mut r, g).await;
             }
-            if k % 150 == 149 && matches!(a.prop.as_str(), "C12" | "C13" | "C19") {
+            if k % 150 == 149 && matches!(a.prop.as_str(), "C12" | "C13" | "C19" | "C08") {
                 w.refresh_oracles();
                 let nb = w.banks.len();
                 let cands: Vec<usize> = (0..nb).filter(|b| scen::usable_collateral(&w, *b)).collect();
@@ -367,7 +373,7 @@ async fn run_admin(a: &Args, m: &mut mon::Mon) {
                     let db = storm::pick(&mut r, &dbs);
                     if ca != db {
                         if let Some(lev) = scen::setup_leveraged(&mut w, m, &mut r, g, s.liquidator, ca, db, 0.9).await {
-                            if a.prop == "C19" {
+                            if a.prop == "C19" || a.prop == "C08" {
                                 let ru = w.accts[s.liquidator].user;
                                 ad.emissions_in_receivership(&mut w, m, &mut r, &lev, ru).await;
                             }
